@@ -42,7 +42,9 @@ var docContexts = []string{"foo(%s\n);", "$a = %s\n;", "array(%s\n);", "$x[%s\n]
 	"foo(1, %s\n);", "return %s\n;", "$a . %s\n;", "[%s\n, 2];", "-%s\n;", "@%s\n;", "f(%s\n)->g();", "new A(%s\n);"}
 
 var docBodies = []string{"<<<X\nprice: $amount\nX", "<<<'X'\nprice: $amount\nX", "<<<\"X\"\nv {$a->b} ${c}\nX", "<<<X\nX", "<<<'X'\nX",
-	"<<<X\nplain\nX", "<<<'X'\nplain {$a}\nX", "<<<X\n$a[1] $b->c\nX"}
+	"<<<X\nplain\nX", "<<<'X'\nplain {$a}\nX", "<<<X\n$a[1] $b->c\nX",
+	"<<< 'X'\nraw $a {$b}\nX", "<<<\t'X'\nraw ${a}\nX", "<<< X\ncooked $a\nX", "<<< \"X\"\ncooked {$a}\nX", "b<<<'X'\nraw $a\nX", "b<<< 'X'\nraw $a\nX",
+	"<<<X\n  indented $a\n  X", "<<<'X'\n\tindented $a\n\tX", "<<<X\n    a\n   b\n   X"}
 
 // docCombos: files with 2-3 heredocs / nowdocs in varying syntactic positions
 func docCombos(rng *rand.Rand, n int) [][]byte {
